@@ -40,6 +40,9 @@ func c20Spec(mode, hashID byte, salt []byte, count byte) []byte {
 	return s
 }
 
+// c20Mem is the memory layout class of the byte-slice inputs of the current case.
+var c20Mem int
+
 // c20ParseAndDerive parses spec followed by `trailer` and derives keys of the
 // given sizes (in that order, from the same returned function).
 func c20ParseAndDerive(spec, trailer, pass []byte, sizes []int) (keys [][]byte, consumed int, err error, panicked error) {
@@ -54,10 +57,10 @@ func c20ParseAndDerive(spec, trailer, pass []byte, sizes []int) (keys [][]byte, 
 		consumed = total - r.Len()
 		for _, n := range sizes {
 			out := make([]byte, n)
-			in := append([]byte{}, pass...)
-			f(out, in)
-			if !bytes.Equal(in, pass) {
-				panic("the derivation function modified the passphrase")
+			lay := placeInputs(c20Mem, pass)
+			f(out, lay.placed[0])
+			if merr := lay.check(); merr != nil {
+				panic("the derivation function: " + merr.Error())
 			}
 			keys = append(keys, out)
 		}
@@ -152,6 +155,8 @@ func TestC20(t *testing.T) {
 	}
 
 	rapid.Check(t, func(rt *rapid.T) {
+		c20Mem = drawMem(rt)
+		c.Class("mem=" + memClasses[c20Mem])
 		op := weighted(rt, "op", 55, 15, 12, 10, 8)
 		passClass := weighted(rt, "pass.class", 80, 10, 10)
 		var pass []byte
@@ -289,7 +294,13 @@ func TestC20(t *testing.T) {
 			var w bytes.Buffer
 			rsalt := append([]byte{}, salt...)
 			var serr error
-			if pan := noPanic(func() { serr = s2k.Serialize(&w, key, &c20Reader{append(rsalt, 0xee, 0xee)}, pass, cfg) }); pan != nil {
+			slay := placeInputs(c20Mem, pass)
+			if pan := noPanic(func() {
+				serr = s2k.Serialize(&w, key, &c20Reader{append(rsalt, 0xee, 0xee)}, slay.placed[0], cfg)
+				if merr := slay.check(); merr != nil {
+					panic(merr.Error())
+				}
+			}); pan != nil {
 				fail(rt, fmt.Errorf("s2k.Serialize(count %d, hash %s): %v", reqCount, c20HashNames[wantHash], pan))
 			}
 			if serr != nil {
@@ -336,16 +347,23 @@ func TestC20(t *testing.T) {
 			out := make([]byte, keyLen)
 			var want []byte
 			var what string
+			dlay := placeInputs(c20Mem, pass, dsalt)
+			dpass, dsaltP := dlay.placed[0], dlay.placed[1]
 			if pan := noPanic(func() {
+				defer func() {
+					if merr := dlay.check(); merr != nil {
+						panic(merr.Error())
+					}
+				}()
 				switch fn {
 				case 0:
-					s2k.Simple(out, h, pass)
+					s2k.Simple(out, h, dpass)
 					want, what = refkdf.S2K(nh, 0, nil, pass, 0, keyLen), "Simple"
 				case 1:
-					s2k.Salted(out, h, pass, dsalt)
+					s2k.Salted(out, h, dpass, dsaltP)
 					want, what = refkdf.S2K(nh, 1, dsalt, pass, 0, keyLen), "Salted"
 				default:
-					s2k.Iterated(out, h, pass, dsalt, count)
+					s2k.Iterated(out, h, dpass, dsaltP, count)
 					want, what = refkdf.S2K(nh, 3, dsalt, pass, count, keyLen), fmt.Sprintf("Iterated(count=%d)", count)
 				}
 			}); pan != nil {
@@ -449,6 +467,7 @@ func TestC20(t *testing.T) {
 				continue
 			}
 			pass := detBytes("c20.pass", idx, idx%41)
+			c20Mem = idx
 			spec := c20Spec(3, hid, detBytes("c20.salt", idx, 8), byte(cb))
 			if err := c20CheckValid(spec, pass, sizes); err != nil {
 				fatal(err)
